@@ -1,18 +1,38 @@
 #!/bin/bash
 # ./run.sh <Cnn> <quick|thorough>   | ./run.sh replay <file> | ./run.sh build | ./run.sh selftest
+# Env: VERIF_SEED, VERIF_TIER, VERIF_SCALE, VERIF_WORKERS;
+#      VERIF_REPO=<dir> tests another checkout of xsel instead of /repo (selfcheck on mutants),
+#      VERIF_OUT=<dir> puts binaries, evidence, replays and scratch files there instead of /verif.
 set -u
 cd "$(dirname "$0")"
 export GOFLAGS=-mod=mod GOPROXY=off GOSUMDB=off GOTOOLCHAIN=local
-export VERIF_DIR="$(pwd)"
-mkdir -p bin evidence replays work
+OUT="${VERIF_OUT:-$(pwd)}"
+export VERIF_DIR="$OUT"
+mkdir -p "$OUT/bin" "$OUT/evidence" "$OUT/replays" "$OUT/work"
+MODFLAG=""
+if [ -n "${VERIF_REPO:-}" ]; then
+  sed "s#=> /repo#=> ${VERIF_REPO}#" go.mod > "$OUT/go.alt.mod"
+  cp go.sum "$OUT/go.alt.sum"
+  MODFLAG="-modfile=$OUT/go.alt.mod"
+  [ -f "$OUT/KNOWN_FINDINGS.txt" ] || cp KNOWN_FINDINGS.txt "$OUT/KNOWN_FINDINGS.txt"
+fi
 build() {
-  # always rebuilds from /repo's current working tree (go build caches unchanged packages)
-  go build -tags verif -o bin/xvmon ./cmd/xvmon || { echo "BROKEN: build failed"; exit 2; }
+  # always rebuilds from the repository's current working tree (go build caches unchanged packages)
+  go build $MODFLAG -tags verif -o "$OUT/bin/xvmon" ./cmd/xvmon || { echo "BROKEN: build failed"; exit 2; }
+}
+build_race() {
+  go build $MODFLAG -race -tags verif -o "$OUT/bin/xvmon-race" ./cmd/xvmon || { echo "BROKEN: race build failed"; exit 2; }
+  go build $MODFLAG -race -tags verif -o "$OUT/bin/xsel-race" github.com/ChrisTrenkamp/xsel/xsel || { echo "BROKEN: CLI race build failed"; exit 2; }
+}
+build_cli() {
+  go build $MODFLAG -tags verif -o "$OUT/bin/xsel" github.com/ChrisTrenkamp/xsel/xsel || { echo "BROKEN: CLI build failed"; exit 2; }
 }
 case "${1:-}" in
-  build) build ;;
-  selftest) build; exec bin/xvmon selftest ;;
-  replay) build; exec bin/xvmon replay "$2" ;;
-  C*) build; exec bin/xvmon check "$1" "${2:-${VERIF_TIER:-quick}}" ;;
+  build) build; build_race; build_cli ;;
+  selftest) build; exec "$OUT/bin/xvmon" selftest ;;
+  replay) build; build_cli; exec "$OUT/bin/xvmon" replay "$2" ;;
+  C14) build; build_race; exec "$OUT/bin/xvmon" check "$1" "${2:-${VERIF_TIER:-quick}}" ;;
+  C20) build; build_cli; exec "$OUT/bin/xvmon" check "$1" "${2:-${VERIF_TIER:-quick}}" ;;
+  C*) build; exec "$OUT/bin/xvmon" check "$1" "${2:-${VERIF_TIER:-quick}}" ;;
   *) echo "usage: $0 <Cnn> <quick|thorough> | replay <file> | build | selftest"; exit 2 ;;
 esac
